@@ -10,7 +10,7 @@ import functools
 from . import clex
 
 DEFAULT_STYLE = dict(p_empty=0.25, p_tab=0.1, p_multi=0.2, p_cmt=0.06, p_nl_slot=0.15, indent='random', blank=2, p_trail=0.1,
-                     p_join=0.08, eol='\n', p_cont=0.5, nonascii=True, p_brace_nl=0.5, bs_cmt=0.0, multi_cmt=True, cmt_tab=True)
+                     p_join=0.08, eol='\n', p_cont=0.5, nonascii=True, p_brace_nl=0.5, bs_cmt=0.0, multi_cmt=True, cmt_tab=True, unstarred_cmt=True, box_cmt=0.0)
 
 REAL = ('id', 'kw', 'num', 'str', 'chr', 'punct', 'hdr')
 
@@ -58,6 +58,14 @@ class Renderer:
             word = 't'
         if not self.st['multi_cmt'] and k in (3, 4, 6):
             k = 0
+        if k == 4 and not self.st['unstarred_cmt']:
+            k = 3
+        if not in_dir and self.st['box_cmt'] and self.rng.random() < self.st['box_cmt']:
+            # a box comment; its first line may carry trailing blanks (they are inside the comment)
+            w = self.rng.choice([8, 12, 20])
+            c = '/%s%s\n * box c%d %s\n %s/' % ('*' * w, self.rng.choice(['', '', ' ', '  ', '\t']), n, word.replace('*/'[:1], 'x'), '*' * w)
+            self.comments.append(c)
+            return c
         if k <= 2 or (in_dir and not at_dir_end):
             c = '/* c%d %s */' % (n, word)
         elif k == 3 and not in_dir:
